@@ -465,6 +465,12 @@ func (c *Conn) loadSession(hello *clientHelloMsg) (
 			return nil, nil, nil, nil
 		}
 		// [UTLS SECTION START]
+		if !c.config.InsecureSkipTimeVerify && c.config.time().Before(session.peerCertificates[0].NotBefore) {
+			// Not yet valid at the configured time: the session may have been
+			// established with InsecureSkipTimeVerify. Do a full handshake, so
+			// that the certificate is verified as this Config requests.
+			return nil, nil, nil, nil
+		}
 		var dnsName string
 		if len(c.config.InsecureServerNameToVerify) == 0 {
 			dnsName = c.config.ServerName
